@@ -62,6 +62,9 @@ pub struct Case {
 	pub main_db: f32,
 	pub main_effects: Vec<Fx>,
 	pub ops: Vec<Op>,
+	/// scheduled stream: routes against racing adds (c02_sched.rs)
+	#[serde(default)]
+	pub sched: Option<super::c02_sched::SchedCase>,
 }
 
 fn amp(db: f32) -> f32 {
@@ -179,6 +182,17 @@ fn gen_db(rng: &mut Rng) -> f32 {
 
 fn gen_case(seed: u64, tier: Tier) -> Case {
 	let mut rng = Rng::new(seed);
+	if rng.chance(0.03) {
+		return Case {
+			seed,
+			sample_rate: 8000,
+			ibs: 8,
+			main_db: 0.0,
+			main_effects: vec![],
+			ops: vec![],
+			sched: Some(super::c02_sched::gen(&mut rng, tier)),
+		};
+	}
 	let sample_rate = *rng.pick(&[8000u32, 44_100, 48_000]);
 	let ibs = *rng.pick(&[1usize, 3, 16, 64, 128, 200]);
 	let tweened = rng.chance(0.5);
@@ -296,6 +310,7 @@ fn gen_case(seed: u64, tier: Tier) -> Case {
 		main_db: if rng.chance(0.5) { 0.0 } else { gen_db(&mut rng) },
 		main_effects: (0..rng.usize_below(3)).map(|_| gen_fx(&mut rng)).collect(),
 		ops,
+		sched: None,
 	}
 }
 
@@ -314,6 +329,9 @@ enum Expect {
 }
 
 pub fn run_case(case: &Case) -> CaseResult {
+	if let Some(sc) = &case.sched {
+		return super::c02_sched::run(sc);
+	}
 	let mut res = CaseResult::default();
 	let mut trace = Hasher64::new();
 	let mut beh = Hasher64::new();
@@ -1017,6 +1035,25 @@ impl Check for C02 {
 		run_case(&case)
 	}
 	fn shrink(&self, case: &Value) -> Vec<Value> {
+		if !case["sched"].is_null() {
+			let c: Case = serde_json::from_value(case.clone()).unwrap();
+			let sc = c.sched.clone().unwrap();
+			let mut out = vec![];
+			let mut push = |sc2: super::c02_sched::SchedCase| out.push(serde_json::to_value(Case { sched: Some(sc2), ..c.clone() }).unwrap());
+			if sc.sends > 1 {
+				push(super::c02_sched::SchedCase { sends: 1, ..sc.clone() });
+			}
+			if sc.nested {
+				push(super::c02_sched::SchedCase { nested: false, ..sc.clone() });
+			}
+			if sc.warm > 0 {
+				push(super::c02_sched::SchedCase { warm: 0, ..sc.clone() });
+			}
+			if sc.callbacks > 1 {
+				push(super::c02_sched::SchedCase { callbacks: sc.callbacks - 1, ..sc.clone() });
+			}
+			return out;
+		}
 		let mut out = shrink_ops_array(case, "ops");
 		let mut c = case.clone();
 		if c["main_effects"].as_array().map(|a| !a.is_empty()).unwrap_or(false) {
